@@ -49,7 +49,7 @@ fn base_strategy() -> BoxedStrategy<c02::Case> {
         2 => (prop::collection::vec((any::<u16>(), mk), 1..5), 0u8..2).prop_map(|(m, x)| DestSpec::Populated(m, x)),
     ];
     (prop::collection::vec(src, 1..3), dest, prop::bool::weighted(0.5))
-        .prop_map(|(srcs, dest, nolinks)| c02::Case { srcs, dest, dest_spell: Spell::Plain, flags: (false, 4, None), no_target_dir: false, target_dir_opt: false, glob: GlobMode::Off, nolinks, extra: 0 })
+        .prop_map(|(srcs, dest, nolinks)| c02::Case { srcs, dest, dest_spell: Spell::Plain, flags: (false, 4, None), no_target_dir: false, target_dir_opt: false, glob: GlobMode::Off, nolinks, extra: 0, dest_via_link: false })
         .boxed()
 }
 
@@ -58,7 +58,7 @@ pub fn strategy() -> BoxedStrategy<Case> {
         base_strategy(),
         prop_oneof![5 => Just(0u8), 4 => Just(1u8), 1 => Just(2u8)],
         any::<bool>(),
-        prop_oneof![Just(1u8), Just(2), Just(4), Just(8), Just(16)],
+        prop_oneof![3 => Just(1u8), 3 => Just(2), 3 => Just(4), 2 => Just(8), 2 => Just(16), 1 => Just(0u8)],
         prop_oneof![2 => Just(u64::MAX), 2 => Just(1024u64), 2 => Just(4096u64), 1 => Just(65536u64), 1 => Just(100u64)],
         prop::option::weighted(0.3, run_cfg()),
         prop_oneof![6 => Just(0u8), 1 => Just(1u8), 1 => Just(2u8), 1 => Just(3u8), 1 => Just(4u8), 1 => Just(5u8)],
@@ -312,11 +312,11 @@ impl Check for C12 {
         };
         prop_loop(ctx, rec, "gen", strategy(), ctx.share(total), judge);
     }
-    fn replay(&self, _ctx: &Ctx, _sub: &str, case: &Value) -> Verdict {
+    fn replay(&self, ctx: &Ctx, _sub: &str, case: &Value) -> Verdict {
         match serde_json::from_value::<Case>(case.clone()) {
             Ok(c) => {
                 let mut last = Verdict::Pass;
-                for _ in 0..(if c.sup.is_some() { 3 } else { 1 }) {
+                for _ in 0..(if c.sup.is_some() { ctx.replay_attempts } else { 1 }) {
                     last = judge(&c, &mut Rec::default());
                     if matches!(last, Verdict::Fail(..)) {
                         return last;
@@ -334,6 +334,6 @@ impl Check for C12 {
         }
     }
     fn required_classes(&self, _tier: Tier) -> Vec<String> {
-        ["|record|", "|channel|", "|noop|", "parblock|", "parfile|", "multiblock", "supervised", "fault1", "fault5", "ok=false", "supervised|sparse=true", "no_clobber|parfile|noop|collision=true", "no_clobber|parblock|record|collision=true"].iter().map(|s| s.to_string()).collect()
+        ["|record|", "|channel|", "|noop|", "parblock|", "parfile|", "multiblock", "supervised", "fault1", "fault5", "ok=false", "supervised|sparse=true", "|w0|", "no_clobber|parfile|noop|collision=true", "no_clobber|parblock|record|collision=true"].iter().map(|s| s.to_string()).collect()
     }
 }
